@@ -407,6 +407,29 @@ func runC08(c *core.Case) *core.Result {
 			return c.Violation(where+"issued-vs-stored", "client c%d issued operations up to seq %d, %d of its operations are stored", ci, issued, stored)
 		}
 	}
+	// epilogue: one more push after the recovery; its background snapshot update must bring the
+	// user-visible document to the end of the log again (a fault inside an EARLIER background
+	// update may leave the document behind for a while, but not for good)
+	{
+		d0 := run.dts[0]
+		for i := 0; i < 20 && len(d0.W.CreatePushPullPack().Operations) == 0; i++ {
+			crdt.Apply(d0.DT, w.g.Op(wrapRep(d0)))
+		}
+		if _, sig, msg := w.sync(w.cls[0]); sig != "" {
+			return verdict(c, where+"epilogue:", sig, msg)
+		}
+		if !w.idle() {
+			return c.Inconclusive("server side did not become idle")
+		}
+		if len(d0.W.CreatePushPullPack().Operations) == 0 {
+			if dd2 := w.b.Datatype(w.colNum, "k"); dd2 != nil {
+				if sig, msg := userDocCurrent(w, c08Variants[variant].typ, "colA", "k", dd2); sig != "" {
+					return c.Violation(where+"epilogue:"+sig, "after the recovery and one more accepted push: %s", msg)
+				}
+				c.Count("user_document_current_after_recovery", 1)
+			}
+		}
+	}
 	if isWrite(run.faultHit.Name) {
 		c.NonTrivial()
 	}
